@@ -149,10 +149,11 @@ func (e *Engine) verifyFunc(fn *ssa.Function, c *Contract) (vc *VC, err error) {
 		vc.cover(res.normal, "normal_exit", fn.Pos())
 		env := fr.resultEnv(res.results, false)
 		for _, en := range c.Ensures {
-			t, err := fr.evalClause(en, res.normal, fr.entry, env)
+			t, sks, err := fr.evalGoal(en, res.normal, fr.entry, env)
 			if err != nil {
 				return vc, fmt.Errorf("%s:%d: %v", en.File, en.Line, err)
 			}
+			vc.instantiateAt(sks)
 			vc.oblige(res.normal, "post", c.clauseName(en), t, fn.Pos(), en.Text)
 		}
 		if err := fr.frameObligations(c, res.normal, "frame"); err != nil {
